@@ -285,6 +285,7 @@ impl TCheck for C13 {
             },
             dedup: false,
             aux_seed: rng.next_u64(),
+            opts: Default::default(),
         };
         let create_knobs = vec![
             ("creator_workers", 1u64),
